@@ -392,7 +392,7 @@ def _split_top(s: str):
 def _helper_def(name):
     """(params [(ident, type)], body one-line) of a free helper `fn name(..) { .. }` eligible for inlining, else None"""
     for rel, (src, m) in INLINE['sources'].items():
-        for mo in re.finditer(r'\bfn\s+' + re.escape(name) + r'\s*\(', m):
+        for mo in re.finditer(r"\bfn\s+" + re.escape(name) + r"\s*(?:<\s*'\w+(?:\s*,\s*'\w+)*\s*>)?\s*\(", m):   # lifetime generics allowed
             # free function only (depth 0) and no generics
             if enclosing_header(m, mo.start())[1] >= 0:
                 continue
@@ -405,7 +405,7 @@ def _helper_def(name):
                 if not pm:
                     ok = False
                     break
-                params.append((pm.group(1), ' '.join(pm.group(2).split())))
+                params.append((pm.group(1), re.sub(r"'\w+\s*", '', ' '.join(pm.group(2).split()))))   # named lifetimes of the helper do not exist at the call site
             bo = m.find('{', pc)
             if bo < 0 or not ok:
                 continue
